@@ -7,10 +7,6 @@ type nat =
 
 val option_map : ('a1 -> 'a2) -> 'a1 option -> 'a2 option
 
-type ('a, 'b) sum =
-| Inl of 'a
-| Inr of 'b
-
 val fst : ('a1 * 'a2) -> 'a1
 
 val snd : ('a1 * 'a2) -> 'a2
@@ -26,8 +22,6 @@ type comparison =
 
 val compOpp : comparison -> comparison
 
-val pred : nat -> nat
-
 val add : nat -> nat -> nat
 
 type positive =
@@ -35,19 +29,14 @@ type positive =
 | XO of positive
 | XH
 
+type n =
+| N0
+| Npos of positive
+
 type z =
 | Z0
 | Zpos of positive
 | Zneg of positive
-
-val eqb : bool -> bool -> bool
-
-module Nat :
- sig
-  val eqb : nat -> nat -> bool
-
-  val leb : nat -> nat -> bool
- end
 
 module Pos :
  sig
@@ -59,6 +48,8 @@ module Pos :
 
   val pred_double : positive -> positive
 
+  val pred_N : positive -> n
+
   val mul : positive -> positive -> positive
 
   val iter : ('a1 -> 'a1) -> 'a1 -> positive -> 'a1
@@ -69,11 +60,32 @@ module Pos :
 
   val eqb : positive -> positive -> bool
 
+  val coq_Nsucc_double : n -> n
+
+  val coq_Ndouble : n -> n
+
+  val coq_lor : positive -> positive -> positive
+
+  val coq_land : positive -> positive -> n
+
+  val ldiff : positive -> positive -> n
+
   val iter_op : ('a1 -> 'a1 -> 'a1) -> positive -> 'a1 -> 'a1
 
   val to_nat : positive -> nat
 
   val of_succ_nat : nat -> positive
+ end
+
+module N :
+ sig
+  val succ_pos : n -> positive
+
+  val coq_lor : n -> n -> n
+
+  val coq_land : n -> n -> n
+
+  val ldiff : n -> n -> n
  end
 
 module Z :
@@ -104,6 +116,8 @@ module Z :
 
   val ltb : z -> z -> bool
 
+  val geb : z -> z -> bool
+
   val gtb : z -> z -> bool
 
   val eqb : z -> z -> bool
@@ -112,18 +126,26 @@ module Z :
 
   val of_nat : nat -> z
 
+  val of_N : n -> z
+
   val pos_div_eucl : positive -> z -> z * z
 
   val div_eucl : z -> z -> z * z
 
+  val div : z -> z -> z
+
   val modulo : z -> z -> z
+
+  val coq_lor : z -> z -> z
+
+  val coq_land : z -> z -> z
  end
+
+val nth : nat -> 'a1 list -> 'a1 -> 'a1
 
 val nth_error : 'a1 list -> nat -> 'a1 option
 
 val last : 'a1 list -> 'a1 -> 'a1
-
-val removelast : 'a1 list -> 'a1 list
 
 val rev : 'a1 list -> 'a1 list
 
@@ -135,77 +157,11 @@ val existsb : ('a1 -> bool) -> 'a1 list -> bool
 
 val forallb : ('a1 -> bool) -> 'a1 list -> bool
 
+val filter : ('a1 -> bool) -> 'a1 list -> 'a1 list
+
 val firstn : nat -> 'a1 list -> 'a1 list
 
 val skipn : nat -> 'a1 list -> 'a1 list
-
-val sw : z -> z -> z
-
-val jP_JBV_NONE : z
-
-val jP_JBV_NULL : z
-
-val jP_JBV_BOOL : z
-
-val jP_JBV_I64 : z
-
-val jP_JBV_F64 : z
-
-val jP_JBV_STR : z
-
-val jP_JBV_OBJECT : z
-
-val jP_JBV_ARRAY : z
-
-val jP_JBP_ADD : z
-
-val jP_JBP_REMOVE : z
-
-val jP_JBP_REPLACE : z
-
-val jP_JBP_COPY : z
-
-val jP_JBP_MOVE : z
-
-val jP_JBP_TEST : z
-
-val jP_JBP_INCREMENT : z
-
-val jP_JBP_ADD_CREATE : z
-
-val jP_JBP_SWAP : z
-
-val jP_ERR_PATH_NOTFOUND : z
-
-val jP_ERR_PATCH_INVALID : z
-
-val jP_ERR_PATCH_INVALID_OP : z
-
-val jP_ERR_PATCH_NOVALUE : z
-
-val jP_ERR_PATCH_TARGET_INVALID : z
-
-val jP_ERR_PATCH_INVALID_VALUE : z
-
-val jP_ERR_PATCH_INVALID_ARRAY_INDEX : z
-
-val jP_ERR_PATCH_TEST_FAILED : z
-
-val jP_ERR_JSON_POINTER : z
-
-val jP_ERR_CREATION : z
-
-val jP_ERR_INVALID_ARGS : z
-
-val jP_ERR_NOT_IMPLEMENTED : z
-
-val skip_ws : z list -> z list
-
-val atoi_digits : z list -> z -> z
-
-val is_inf : z list -> bool
-
-val atoi : z list -> z
 
 type jval =
 | JNull
@@ -218,359 +174,270 @@ type jval =
 
 val bytes_eqb : z list -> z list -> bool
 
-type jty =
-| TNone
-| TNull
-| TBool
-| TI64
-| TF64
-| TStr
-| TObj
-| TArr
+val jbinn_BINN_LIST : z
 
-val ty_code : jty -> z
+val jbinn_BINN_MAP : z
 
-val ty_eqb : jty -> jty -> bool
+val jbinn_BINN_OBJECT : z
 
-val is_container : jty -> bool
+val jbinn_BINN_NULL : z
 
-type node =
-| Node of z * z list * jty * z * z list * node list
+val jbinn_BINN_TRUE : z
 
-val n_kl : node -> z
+val jbinn_BINN_FALSE : z
 
-val n_key : node -> z list
+val jbinn_BINN_BOOL : z
 
-val n_ty : node -> jty
+val jbinn_BINN_UINT8 : z
 
-val n_vi : node -> z
+val jbinn_BINN_INT8 : z
 
-val n_vs : node -> z list
+val jbinn_BINN_UINT16 : z
 
-val n_ch : node -> node list
+val jbinn_BINN_INT16 : z
 
-val set_kl : node -> z -> node
+val jbinn_BINN_UINT32 : z
 
-val set_key : node -> z list -> node
+val jbinn_BINN_INT32 : z
 
-val set_ch : node -> node list -> node
+val jbinn_BINN_UINT64 : z
 
-val copy_data : node -> node -> node
+val jbinn_BINN_INT64 : z
 
-val zero_node : node
+val jbinn_BINN_FLOAT32 : z
 
-type seg = z list
+val jbinn_BINN_FLOAT64 : z
 
-val is_dash : seg -> bool
+val jbinn_BINN_DOUBLE : z
 
-val strncmp_eq : z list -> z list -> nat -> bool
+val jbinn_BINN_STRING : z
 
-val key_match : seg -> node -> bool
+val jbinn_STORAGE_NOBYTES : z
 
-val find_pos : (node -> bool) -> node list -> nat option
+val jbinn_STORAGE_BYTE : z
 
-val child_pos : node -> seg -> nat option
+val jbinn_STORAGE_WORD : z
 
-val set_child : node -> nat -> node -> node
+val jbinn_STORAGE_DWORD : z
 
-val add_item : node -> node -> node
+val jbinn_STORAGE_QWORD : z
 
-val dec_kl : node -> node
+val jbinn_STORAGE_STRING : z
 
-val inc_kl : node -> node
+val jbinn_STORAGE_BLOB : z
 
-val remove_item : node -> nat -> node
+val jbinn_STORAGE_CONTAINER : z
 
-val m_find : node -> seg list -> node option
+val jbinn_STORAGE_MASK : z
 
-val m_detach : node -> seg list -> (node * node) option
+val jbinn_STORAGE_HAS_MORE : z
 
-type rc =
-| RcOk
-| RcNotFound
-| RcNoValue
-| RcTargetInvalid
-| RcBadIdx
-| RcTestFailed
-| RcInvalidValue
-| RcPtr
-| RcPatchInvalid
-| RcBadOp
-| RcInvArgs
-| RcNotImpl
-| RcCreation
-| RcUnmodelled
+val jbinn_MIN_BINN_SIZE : z
 
-val rc_code : rc -> z
+val jbinn_MAX_BIN_KEY_LEN : z
 
-type opk =
-| ONone
-| OAdd
-| ORemove
-| OReplace
-| OCopy
-| OMove
-| OTest
-| OIncrement
-| OAddCreate
-| OSwap
+val jbinn_JBL_MAX_NESTING_LEVEL : z
 
-val op_code : opk -> z
+val jbinn_sizeof_int : z
 
-val op_eqb : opk -> opk -> bool
+val jbinn_UINT8_MAX : z
 
-type fops = { f_add : (z -> z -> z); f_of_i : (z -> z); f_to_i : (z -> z);
-              f_eq : (z -> z -> bool) }
+val jbinn_UINT16_MAX : z
 
-val increment : fops -> node -> node -> rc * node
+val jbinn_UINT32_MAX : z
 
-val member_match : node -> node -> bool
+val jbinn_INT8_MIN : z
 
-val nodes_eq : fops -> node -> node -> bool
+val jbinn_INT16_MIN : z
 
-val renumber : z -> node list -> node list
+val jbinn_INT32_MIN : z
 
-val clone : node -> node
+val jbinn_STRING_KEEPS_NUL : z
 
-val put_here : fops -> opk -> node -> seg -> node -> rc * node
+val be_bytes : nat -> z -> z list
 
-val m_put : fops -> opk -> node -> seg list -> node -> (rc * node) option
+val be_val : nat -> z list -> z option
 
-val m_create : fops -> node -> seg list -> node -> rc * node
+val cstr : z list -> z list
 
-val is_prefix : seg list -> seg list -> bool
+val zlen : 'a1 list -> z
 
-val m_set_data : node -> seg list -> node -> node option
+val zskip : z -> 'a1 list -> 'a1 list
 
-type pop = { p_op : opk; p_path : seg list; p_from : seg list option;
-             p_val : node option }
+val zfirst : z -> 'a1 list -> 'a1 list
 
-val is_root : seg list -> bool
+val tolower : z -> z
 
-val put_or_create : fops -> opk -> node -> seg list -> node -> rc * node
+val strnieq : z list -> z list -> nat -> bool
 
-val swap_target : node -> seg list -> node option option
+val rd_field : z list -> (z * z) option
 
-val apply_op : fops -> node -> pop -> rc * node
+val read_hdr : z list -> (((z * z) * z) * z) option
 
-val ptr_segs : z list -> z list -> seg list option
+val advance : z list -> z -> (z list * z) option
 
-type ptr_res =
-| PtrOk of seg list
-| PtrErr
-| PtrUnmodelled
+type bval = { bt : z; bnum : z; bsize : z; bcount : z; bptr : z list }
 
-val ptr_parse : z list -> ptr_res
+val get_value : z list -> bval option
 
-type rawop = { r_op : opk; r_path : z list option; r_from : z list option;
-               r_val : node option }
+type biter = { it_p : (z list * z) option; it_cur : z; it_cnt : z; it_type : z }
 
-val parse_op : rawop -> (rc, pop) sum
+val iter_init : z list -> z -> biter option
 
-val parse_ops : rawop list -> (rc, pop list) sum
+val list_next : biter -> (bval * biter) option
 
-val apply_ops : fops -> node -> pop list -> rc * node
+val object_next : biter -> ((z list * bval) * biter) option
 
-val patch_node : fops -> node -> rawop list -> rc * node
+val list_items : nat -> biter -> bval list
 
-val lit_op : z list
+val obj_items : nat -> biter -> (z list * bval) list
 
-val lit_value : z list
+val iter_fuel : biter -> nat
 
-val lit_path : z list
+val sx : z -> z -> z
 
-val lit_from : z list
+val create_scalar : bval -> jval option
 
-val op_names : (z list * opk) list
+val dec_node : nat -> bval -> jval option
 
-val op_by_prefix : (z list * opk) list -> z list -> opk option
+val root_bval : z list -> bval option
 
-val lit_match : z list -> node -> bool
+val binn_decode : z list -> jval option
 
-val decode_members : node list -> rawop -> (rc, rawop) sum
+val compress_int : z -> z * nat
 
-val empty_rawop : rawop
+val wr_field : z -> z list
 
-val decode_ops : node list -> (rc, rawop list) sum
+val save_header : z -> z list -> z -> z list option
 
-val create_patch : node -> (rc, rawop list) sum
+val search_key : nat -> z list -> z -> z list -> bool
 
-val key_is : z list -> node -> bool
+val enc_item : jval -> z list option
 
-val op_exact : (z list * opk) list -> z list -> opk option
+val binn_encode : jval -> z list option
 
-val decode_members_exact : node list -> rawop -> (rc, rawop) sum
+val binn_clone : z list -> z list option
 
-val decode_ops_exact : node list -> (rc, rawop list) sum
+val binn_clone_into_pool : z list -> z list option
 
-val patch_binary :
-  ('a1 -> node) -> (node -> 'a1 option) -> 'a1 -> fops -> 'a1 -> rawop list
-  -> rc * 'a1
+val char_ok : z -> bool
 
-val val0 : node -> jval
+val key_ieq : z list -> z list -> bool
 
-val doc_val : node -> jval option
+val keys_unique : z list list -> bool
 
-val of_val : z -> z list -> jval -> node
+val wf : jval -> bool
 
-type heap = { h_next : nat; h_live : nat list }
+type pres =
+| PErr
+| PUndef
+| POk of z list list
 
-val h_live : heap -> nat list
+val seg_scan : z list -> z list -> (z list * z list) option
 
-val h_empty : heap
+val segs_scan : nat -> z list -> z list list option
 
-val h_alloc : heap -> nat * heap
+val count_slash : z list -> nat
 
-val remove1 : nat -> nat list -> nat list option
+val ptr_parse3 : z list -> pres
 
-type herr =
-| DoubleFree
-| UseAfterFree
+val rfc_unescape : z list -> z list option
 
-val h_free : heap -> nat -> (herr, heap) sum
+val split_slash : z list -> z list -> z list list
 
-val h_free_opt : heap -> nat option -> (herr, heap) sum
+val all_some : 'a1 option list -> 'a1 list option
 
-val h_is_live : heap -> nat -> bool
-
-val h_use : heap -> nat option -> (herr, unit) sum
-
-val mkey_match : node -> node -> bool
-
-val reset_obj : node -> node
-
-val merge_pool : node option -> node -> node
-
-val jbn_merge_patch_pool : node -> node -> rc * node
-
-val jbn_merge_patch_node : node -> node -> node
-
-val jbn_patch_auto : fops -> node -> node -> rc * node
-
-val wrap_child : seg list -> node option -> node option
-
-val merge_patch_create : z list -> node option -> (rc, node option) sum
-
-val jbn_merge_patch_path_pool : node -> z list -> node option -> rc * node
-
-val merge_binary :
-  ('a1 -> node) -> (node -> 'a1 option) -> 'a1 -> node -> rc * 'a1
-
-type hnode =
-| HNode of nat * nat option * z * z list * jty * z * nat option * z list
-   * hnode list
-
-val hn_id : hnode -> nat
-
-val hn_kid : hnode -> nat option
-
-val hn_kl : hnode -> z
-
-val hn_key : hnode -> z list
-
-val hn_ty : hnode -> jty
-
-val hn_vi : hnode -> z
-
-val hn_sid : hnode -> nat option
-
-val hn_vs : hnode -> z list
-
-val hn_ch : hnode -> hnode list
-
-val hset_ch : hnode -> hnode list -> hnode
-
-val hset_child : hnode -> nat -> hnode -> hnode
-
-val forget : hnode -> node
-
-val bindh : (herr, 'a1) sum -> ('a1 -> (herr, 'a2) sum) -> (herr, 'a2) sum
-
-val destroy : heap -> hnode -> (herr, heap) sum
-
-val destroy_list : heap -> hnode list -> (herr, heap) sum
-
-val hrenumber : z -> hnode list -> hnode list
-
-val clone_h : heap -> bool -> node -> heap * hnode
-
-val hfind : heap -> node -> hnode list -> (herr, nat option) sum
-
-val merge_h : heap -> hnode option -> node -> (herr, heap * hnode) sum
-
-val jbn_merge_patch_heap :
-  heap -> hnode -> node -> (herr, (rc * heap) * hnode) sum
-
-val jbn_merge_patch_path_heap :
-  heap -> hnode -> z list -> node option -> (herr, (rc * heap) * hnode) sum
-
-val heap_of : node -> heap * hnode
-
-type sseg = z list
-
-val s_is_dash : sseg -> bool
-
-type cfg = { c_look : (sseg -> z option); c_ins : (sseg -> z option);
-             c_lenient : bool }
+val rfc_ptr_parse : z list -> z list list option
 
 val is_digit : z -> bool
 
-val dec_val : sseg -> z
+val rfc_index : z list -> z option
 
-val strict_idx : sseg -> z option
+val find_key : z list -> (z list * jval) list -> jval option
 
-val strict : cfg
+val rfc6901_at : z list list -> jval -> jval option
 
-val lenient : cfg
+val digits_rev : nat -> z -> z list
 
-val lookup : sseg -> (sseg * jval) list -> jval option
+val itoa : z -> z list
 
-val set_member : sseg -> jval -> (sseg * jval) list -> (sseg * jval) list
+val star : z list -> bool
 
-val remove_member : sseg -> (sseg * jval) list -> (sseg * jval) list
+val seg_at : z list list -> z -> z list
 
-val aidx : cfg -> jval list -> sseg -> nat option
+val strncmp_eq : z list -> z list -> z -> bool
 
-val jget : cfg -> jval -> sseg list -> jval option
+val upd_jbl : z list list -> z -> z -> z list option -> z -> z * bool
 
-val jmod :
-  cfg -> jval -> sseg list -> (jval -> sseg -> jval option) -> jval option
+val upd_jbn : z list list -> z -> z -> z list option -> z -> z * bool
 
-val remove_here : cfg -> jval -> sseg -> jval option
+type 'n kres =
+| KNot
+| KErr of z
+| KSome of ((z list option * z) * 'n) list
 
-val add_here : cfg -> jval -> jval -> sseg -> jval option
+val e_INVALID : z
 
-val s_remove : cfg -> jval -> sseg list -> jval option
+val e_NESTING : z
 
-val s_add : cfg -> jval -> sseg list -> jval -> jval option
+val e_FUEL : z
 
-val jeq : (z -> z -> bool) -> jval -> jval -> bool
+val e_DECODE : z
 
-type sopk =
-| SNone
-| SAdd
-| SRemove
-| SReplace
-| SCopy
-| SMove
-| STest
-| SIncrement
-| SAddCreate
-| SSwap
+type 'n vst = { v_pos : z; v_res : 'n option; v_term : bool }
 
-type sop = { s_op : sopk; s_path : sseg list; s_from : sseg list option;
-             s_val : jval option }
+type 'n vr =
+| VErr of z
+| VOk of 'n vst
 
-val seg_prefix : sseg list -> sseg list -> bool
+val visit :
+  ('a1 -> 'a1 kres) -> (z list list -> z -> z -> z list option -> z ->
+  z * bool) -> bool -> z list list -> nat -> z -> ((z list option * z) * 'a1)
+  list -> 'a1 vst -> 'a1 vr
 
-val proper_prefix : sseg list -> sseg list -> bool
+type 'n at_res =
+| AtFound of 'n
+| AtNotFound
+| AtPtrErr
+| AtPtrUndef
+| AtErr of z
 
-val s_is_root : cfg -> sseg list -> bool
+val at_fuel : z list list -> nat
 
-val rfc_op :
-  cfg -> (z -> z -> bool) -> jval option -> sop -> jval option option
+val number : z -> 'a1 list -> ((z list option * z) * 'a1) list
 
-val rfc_program :
-  cfg -> (z -> z -> bool) -> jval option -> sop list -> jval option option
+val kids_j : jval -> jval kres
 
-val merge_spec : jval option -> jval -> jval
+val at_tree2 : jval -> z list list -> jval at_res
+
+val at_tree : jval -> z list -> jval at_res
+
+val kids_b : bval -> bval kres
+
+val at_bval2 : bval -> z list list -> bval at_res
+
+val at_binn2 : z list -> z list list -> jval at_res
+
+val at_binn : z list -> z list -> jval at_res
+
+type cframe = { f_key : z list option; f_obj : bool;
+                f_kids : (z list option * jval) list }
+
+type cst = { c_stack : cframe list; c_pend : (z list option * bool) option;
+             c_pos : z }
+
+val frame_val : cframe -> jval
+
+val add_kid : (z list option * jval) -> cframe list -> cframe list
+
+val flush : cst -> cst
+
+val pop1 : cframe list -> cframe list
+
+val popn : nat -> cframe list -> cframe list
+
+val clone_visit : z -> z list option -> jval -> cst -> cst
+
+val clone_walk : z -> jval -> cst -> cst
+
+val jbn_clone : jval -> jval
